@@ -68,26 +68,25 @@ Fixpoint decode_parts_fuel (fuel : nat) (b : bytes) : dres :=
             match rest with
             | [] => DErr
             | l :: r2 =>
-                let n := N.to_nat (b2n l) in
-                if Nat.ltb (length r2) n then DErr
-                else dcons (firstn n r2) (decode_parts_fuel f (skipn n r2))
+                let n := b2n l in
+                if lenN r2 <? n then DErr
+                else dcons (firstn (N.to_nat n) r2) (decode_parts_fuel f (skipn (N.to_nat n) r2))
             end
           else if o =? 77 then                              (* OP_PUSHDATA2 *)
             if Nat.ltb (length rest) 2 then DErr
-            else let n := N.to_nat (le_dec (firstn 2 rest)) in
+            else let n := le_dec (firstn 2 rest) in
                  let r2 := skipn 2 rest in
-                 if Nat.ltb (length r2) n then DErr
-                 else dcons (firstn n r2) (decode_parts_fuel f (skipn n r2))
+                 if lenN r2 <? n then DErr      (* compare before converting: the claimed length may be 2^32-1 *)
+                 else dcons (firstn (N.to_nat n) r2) (decode_parts_fuel f (skipn (N.to_nat n) r2))
           else if o =? 78 then                              (* OP_PUSHDATA4 *)
             if Nat.ltb (length rest) 4 then DErr
-            else let n := N.to_nat (le_dec (firstn 4 rest)) in
+            else let n := le_dec (firstn 4 rest) in
                  let r2 := skipn 4 rest in
-                 if Nat.ltb (length r2) n then DErr
-                 else dcons (firstn n r2) (decode_parts_fuel f (skipn n r2))
+                 if lenN r2 <? n then DErr      (* compare before converting: the claimed length may be 2^32-1 *)
+                 else dcons (firstn (N.to_nat n) r2) (decode_parts_fuel f (skipn (N.to_nat n) r2))
           else if (1 <=? o) && (o <=? 78) then              (* direct push of o bytes *)
-            let n := N.to_nat o in
-            if Nat.ltb (length rest) n then DErr
-            else dcons (firstn n rest) (decode_parts_fuel f (skipn n rest))
+            if lenN rest <? o then DErr
+            else dcons (firstn (N.to_nat o) rest) (decode_parts_fuel f (skipn (N.to_nat o) rest))
           else dcons [op] (decode_parts_fuel f rest)
       end
   end.
